@@ -241,6 +241,53 @@ impl<P: PoolAdapter + 'static> Node<P> {
 	}
 
 	fn spend(&mut self, inputs: &[usize], nout: usize, fee: u64) -> Option<Transaction> {
+		self.spend_f(inputs, nout, fee, None)
+	}
+
+	/// unspent coinbases that are NOT yet mature for the next block and that no pool entry spends
+	fn young_coinbases(&self) -> Vec<usize> {
+		let spent = self.pool_spent();
+		let nh = self.node.head().unwrap().height + 1;
+		let mut v = vec![];
+		for o in &self.kit.outs {
+			if spent.contains(&o.id) {
+				continue;
+			}
+			if let Ok(Some((oi, pos))) = self.node.get_unspent(o.commit) {
+				if oi.features.is_coinbase() && nh < pos.height + MATURITY {
+					v.push(o.id);
+				}
+			}
+		}
+		v
+	}
+
+	/// Is the transaction inadmissible at the height of the next block on the BODY head: a kernel
+	/// locked beyond it, or a coinbase output of the chain spent before its maturity?  (Asked of the
+	/// chain's unspent set directly, not of anything the pool or its adapter computed.)
+	fn too_early(&self, tx: &Transaction) -> Option<String> {
+		let next = self.node.head().map(|t| t.height).unwrap_or(0) + 1;
+		if tx.lock_height() > next {
+			return Some(format!("lock height {} > next block height {}", tx.lock_height(), next));
+		}
+		let (t, s) = self.entries();
+		let created: BTreeSet<usize> = t.iter().chain(s.iter()).flat_map(|x| self.tx_outs(x)).collect();
+		for i in self.tx_ins(tx) {
+			if created.contains(&i) {
+				continue;
+			}
+			if let Some(r) = self.kit.outs.get(i) {
+				if let Ok(Some((oi, pos))) = self.node.get_unspent(r.commit) {
+					if oi.features.is_coinbase() && next < pos.height + MATURITY {
+						return Some(format!("coinbase o{} created at height {} matures at {} > next block height {}", i, pos.height, pos.height + MATURITY, next));
+					}
+				}
+			}
+		}
+		None
+	}
+
+	fn spend_f(&mut self, inputs: &[usize], nout: usize, fee: u64, features: Option<KernelFeatures>) -> Option<Transaction> {
 		let total: u64 = inputs.iter().map(|i| self.kit.outs[*i].value).sum();
 		if total <= fee + nout as u64 {
 			return None;
@@ -259,7 +306,11 @@ impl<P: PoolAdapter + 'static> Node<P> {
 			let v = if k + 1 == nout { rest - each * (nout as u64 - 1) } else { each };
 			new_outs.push((v, self.kit.fresh_key()));
 		}
-		let tx = make_tx(&self.kit.kc, &ins, &new_outs, KernelFeatures::Plain { fee: FeeFields::new(0, fee).ok()? }).ok()?;
+		let features = match features {
+			Some(f) => f,
+			None => KernelFeatures::Plain { fee: FeeFields::new(0, fee).ok()? },
+		};
+		let tx = make_tx(&self.kit.kc, &ins, &new_outs, features).ok()?;
 		for (v, key) in new_outs {
 			let commit = self.kit.kc.commit(v, &key, SwitchCommitmentType::Regular).ok()?;
 			if !self.kit.by_commit.contains_key(&commit) {
@@ -409,7 +460,15 @@ impl<P: PoolAdapter + 'static> Node<P> {
 		self.stem_ok.store(stem_ok, Ordering::SeqCst);
 		let header = self.node.head_header().unwrap();
 		let pool = self.pool.clone();
+		let early = self.too_early(&tx);
 		let r = catch(std::panic::AssertUnwindSafe(|| pool.write().add_to_pool(src, tx.clone(), stem, &header)));
+		if let (Some(why), Ok(Ok(()))) = (&early, &r) {
+			let sig = self.sig(&tx);
+			self.raw(&format!(
+				"#ORACLE-FAIL C14 node-transaction-admitted-before-its-height hist={} submit {} {} stem={} through the real PoolToChainAdapter: {}",
+				self.name, kind, sig, stem, why
+			));
+		}
 		let res = match &r {
 			Ok(Ok(())) => "ok".to_string(),
 			Ok(Err(e)) => format!("err:{:?}", e).chars().take_while(|c| c.is_alphanumeric() || *c == ':').collect(),
@@ -534,6 +593,29 @@ fn fill_pool(n: &mut Node, rng: &mut Rng, count: usize) {
 		let mut pool_outs: Vec<usize> = txs.iter().flat_map(|t| n.tx_outs(t)).filter(|o| !spent.contains(o)).collect();
 		if stem_path {
 			pool_outs.extend(stem.iter().flat_map(|t| n.tx_outs(t)).filter(|o| !spent.contains(o)));
+		}
+		// now and then a transaction that is too early for the next block (through the real
+		// PoolToChainAdapter::verify_coinbase_maturity / verify_tx_lock_height): must never get in
+		if rng.chance(1, 6) {
+			let nh = n.node.head().unwrap().height + 1;
+			let young = n.young_coinbases();
+			let tx = if !young.is_empty() && rng.chance(1, 2) {
+				let o = *rng.pick(&young);
+				n.spend(&[o], 1, fee_for(rng, 1, 1)).map(|t| (t, "immature-coinbase"))
+			} else if !free.is_empty() {
+				let o = *rng.pick(&free);
+				let fee = fee_for(rng, 1, 1);
+				let lock = nh + rng.below(3);
+				let f = KernelFeatures::HeightLocked { fee: FeeFields::new(0, fee).unwrap(), lock_height: lock };
+				n.spend_f(&[o], 1, fee, Some(f)).map(|t| (t, if lock > nh { "locked-beyond-next-block" } else { "locked-at-next-block" }))
+			} else {
+				None
+			};
+			if let Some((tx, label)) = tx {
+				let src = pick_src(rng);
+				n.submit(tx, src, stem_path, true, label);
+			}
+			continue;
 		}
 		let child = !pool_outs.is_empty() && rng.chance(1, 3);
 		let (ins, kind) = if child {
@@ -1016,7 +1098,15 @@ impl Mon {
 			self.sync.update(SyncStatus::AwaitingPeers(true));
 		}
 		let ep = self.epoch_args();
+		let early = self.n.too_early(&tx);
 		let r = catch(std::panic::AssertUnwindSafe(|| self.recv.transaction_received(tx.clone(), stem)));
+		if let (Some(why), Ok(Ok(true)), false) = (&early, &r, syncing) {
+			let sig = self.n.sig(&tx);
+			self.n.raw(&format!(
+				"#ORACLE-FAIL C14 node-transaction-admitted-before-its-height hist={} transaction_received {} {} stem={}: {}",
+				self.n.name, kind, sig, stem, why
+			));
+		}
 		self.sync.update(SyncStatus::NoSync);
 		let res = match &r {
 			Ok(Ok(b)) => format!("{}", b),
@@ -1039,7 +1129,15 @@ impl Mon {
 		let ep = self.epoch_args();
 		let header = self.n.node.head_header().unwrap();
 		let pool = self.n.pool.clone();
+		let early = self.n.too_early(&tx);
 		let r = catch(std::panic::AssertUnwindSafe(|| pool.write().add_to_pool(src, tx.clone(), stem, &header)));
+		if let (Some(why), Ok(Ok(()))) = (&early, &r) {
+			let sig = self.n.sig(&tx);
+			self.n.raw(&format!(
+				"#ORACLE-FAIL C14 node-transaction-admitted-before-its-height hist={} push {} {} stem={}: {}",
+				self.n.name, kind, sig, stem, why
+			));
+		}
 		let res = match &r {
 			Ok(Ok(())) => "ok".to_string(),
 			Ok(Err(e)) => format!("err:{}", perr(e)),
@@ -1427,6 +1525,32 @@ fn run_monitor_history(work: &str, hist: usize, seed: u64, rounds: usize) -> (St
 			let mut pool_outs: Vec<usize> = txs.iter().flat_map(|t| m.n.tx_outs(t)).filter(|o| !spent.contains(o)).collect();
 			if stem_path {
 				pool_outs.extend(stem.iter().flat_map(|t| m.n.tx_outs(t)).filter(|o| !spent.contains(o)));
+			}
+			if rng.chance(1, 7) {
+				// too early for the next block: an immature coinbase, a kernel locked beyond it (or at it)
+				let nh = m.n.node.head().unwrap().height + 1;
+				let young = m.n.young_coinbases();
+				let made = if !young.is_empty() && rng.chance(1, 2) {
+					let o = *rng.pick(&young);
+					let fee = fee_for(&mut rng, 1, 1);
+					m.n.spend(&[o], 1, fee).map(|t| (t, "immature-coinbase"))
+				} else if !free.is_empty() {
+					let o = *rng.pick(&free);
+					let fee = fee_for(&mut rng, 1, 1);
+					let lock = nh + rng.below(3);
+					let f = KernelFeatures::HeightLocked { fee: FeeFields::new(0, fee).unwrap(), lock_height: lock };
+					m.n.spend_f(&[o], 1, fee, Some(f)).map(|t| (t, if lock > nh { "locked-beyond-next-block" } else { "locked-at-next-block" }))
+				} else {
+					None
+				};
+				if let Some((tx, label)) = made {
+					if rng.chance(1, 2) {
+						m.receive(tx, stem_path, false, label);
+					} else {
+						m.push(tx, TxSource::PushApi, stem_path, label);
+					}
+				}
+				continue;
 			}
 			let roll = rng.below(10);
 			let (ins, kind): (Vec<usize>, &str) = if roll < 3 && !pool_outs.is_empty() {
